@@ -385,7 +385,7 @@ fn run_e(t: &[&str]) -> Option<(String, Vec<String>)> {
     };
     let format = format_by_name(t[2])?;
     let (w, h) = (p_u32(t[3])?, p_u32(t[4])?);
-    if w > 4096 || h > 4096 {
+    if w > 16384 || h > 16384 {
         return None;
     }
     let color = *all_colors().get(p_usize(t[5])?)?;
@@ -971,6 +971,28 @@ pub fn gen(seed: u64, thorough: bool) -> Vec<String> {
                     let dither = *g.rng.pick(DITHERS);
                     g.push("d", name, w, h, color, 0, content, quality, dither, "uni", 1, k);
                 }
+            }
+        }
+    }
+
+    // (g) rows wider than every staging buffer of the encoders (512 / 1024 / 4096 pixels, 4 KiB), contiguous and
+    // strided (pitch > 0: padded rows, i.e. a non-contiguous view), a few of them with a failing writer (seed C15g)
+    for (name, f) in &encodable {
+        let widths: &[u32] = if thorough { &[300, 513, 600, 1025, 1300, 2049, 2500, 4100, 9001] } else { &[513, 1300, 2500, 4100, 9001] };
+        for (i, &w) in widths.iter().enumerate() {
+            let w = if bi_planar(name) { w + w % 2 } else { w };
+            for &h in &[1u32, 2, 3] {
+                if bi_planar(name) && h % 2 == 1 || (h == 2 && !thorough && i % 2 == 0) {
+                    continue;
+                }
+                let color = g.rng.below(12) as usize;
+                let pitch = *g.rng.pick(&[0u32, 1, 7, 5]);
+                let content = g.content_for(color);
+                let dither = *g.rng.pick(DITHERS);
+                let len = enc_len(*f, w, h);
+                let k = if g.rng.chance(1, 5) { Some(g.rng.below(len + 1)) } else { None };
+                let parallel = g.rng.below(2) as u32;
+                g.push("d", name, w, h, color, pitch, content, "fast", dither, "uni", parallel, k);
             }
         }
     }
